@@ -111,6 +111,36 @@ def check_marks(exc, data, backend, lineidx_cache):
     return None
 
 
+class FileLike:
+    """A caller's stream as real programs pass them: only read() is promised; 'name' may be a path (str or bytes), a file
+    descriptor number (os.fdopen, TemporaryFile, pipes, sockets), None (SpooledTemporaryFile) or missing; read() may return
+    fewer items than asked for."""
+
+    def __init__(self, data, name, piece):
+        self._data, self._pos, self._piece = data, 0, piece
+        if name != "missing":
+            self.name = name
+
+    def read(self, size=-1):
+        if size is None or size < 0:
+            size = len(self._data)
+        if self._piece:
+            size = min(size, self._piece)
+        out = self._data[self._pos:self._pos + size]
+        self._pos += len(out)
+        return out
+
+
+STREAM_KINDS = {2: (7, 0), 3: (None, 0), 4: (b"/tmp/x.yaml", 0), 5: ("missing", 5), 6: (3, 1), 7: ("<pipe>", 4096)}
+
+
+def make_stream(data, kind):
+    if kind is True or kind == 1:
+        return io.StringIO(data) if isinstance(data, str) else io.BytesIO(data)
+    name, piece = STREAM_KINDS[kind]
+    return FileLike(data, name, piece)
+
+
 def run_one(data, as_stream):
     import yaml
     failures = []
@@ -124,7 +154,7 @@ def run_one(data, as_stream):
             fn = getattr(yaml, level)
             src = data
             if as_stream:
-                src = io.StringIO(data) if isinstance(data, str) else io.BytesIO(data)
+                src = make_stream(data, as_stream)
             try:
                 with cpu_limit(CPU_LIMIT_S):
                     if bname == "py":
@@ -180,6 +210,10 @@ def make_eval(label):
         data, as_stream = case
         failures, outcomes, evals = run_one(data, as_stream)
         cl = [label] + classify(data, outcomes)
+        if as_stream:
+            cl.append("stream:%s" % ("io" if as_stream is True or as_stream == 1 else "file-like:name=%s%s" % (
+                type(STREAM_KINDS[as_stream][0]).__name__ if STREAM_KINDS[as_stream][0] != "missing" else "missing",
+                ":short-reads" if STREAM_KINDS[as_stream][1] else "")))
         if isinstance(data, str):
             if "\\U" in data or "\\u" in data or "\\x" in data:
                 cl.append("has-escape")
@@ -192,7 +226,7 @@ def make_eval(label):
 
 
 def with_stream(s):
-    return st.tuples(s, st.sampled_from([False, False, False, True]))
+    return st.tuples(s, st.sampled_from([False, False, False, False, False, False, True, True, 2, 3, 4, 5, 6, 7]))
 
 
 def enum_truncations(shard, nshards, tier):
